@@ -7,13 +7,22 @@ to the model), `local_clifford_ops` (all 16 blocks, every run), `lc_graph_operat
 `converter_gate_list`/`lc_check` on graph and adjacency-matrix inputs are run on the real implementation and on the Lean
 model (`graph.lc`, `lc.system`, `lc.equiv`, `lc.ops`, `lc.seq`, `lc.find`, `lc.check`) and compared.
 
+Two versions of `is_lc_equivalent` are modelled: the one in the repository up to 70adac4 (`isLcEquivalent`: one linear system for
+the whole graph; known finding D14) and the repaired one (handoff/repairs/d14: `isLcEquivalentR`: components compared, then the
+unchanged algorithm — now `_is_lc_equivalent_component`, still `isLcEquivalent` in the model — on every induced pair, blocks
+assembled).  `repaired()` probes the implementation once per process on two disjoint edges and selects the model function
+(`repaired=1` on the driver lines); with the repaired code `_connected_components` is compared as well (`lc.components`, and with
+the definition), the random draws are recorded per call of `_random_checker`, and *every* false `no` is a fresh violation — the
+D14 key is only used while the defect reproduces.
+
 Direct oracle (independent of graphiq and, except for the orbit table, of the model):
   * local complementation toggles exactly the pairs of distinct neighbours (numpy, by definition) and is an involution;
   * `yes` answers: the two graphs are in the same LC orbit (orbit table computed by the driver by BFS over the verified
     `localComp`, all graphs n <= 6); `Q` satisfies S^T Q^T P S' = 0 (matrix identity evaluated in numpy) with invertible
     blocks; the returned gates, applied to the graph state of A by the *verified tableau model*, give exactly the graph
     state of B (signs included); the returned vertex sequence, applied by definition, maps A to B;
-  * `no` answers: the graphs are in different orbits (a false `no` in the region of known finding D14 is keyed as such);
+  * `no` answers: the graphs are in different orbits (a false `no` in the region of known finding D14 — whole-graph solution
+    dimension >= 5, unrepaired code only — is keyed as such);
   * `lc_check` on tableaux: no exception on stabilizer states (regression inputs of the repaired D40: |0>, |0>|+>, |0> x Bell compared
     with themselves); the total gate list, run by the verified tableau model on state 1, gives state 2; a false `no` is keyed by the
     solution dimension on the graphs state_to_graph chose (>= 5: D14 — e.g. every state with an unentangled qubit, n >= 2).
@@ -28,7 +37,12 @@ LEVEL = "proof"
 TRUSTED_BASE = [
     "Lean 4.33 kernel",
     "hand-written model GraphiqModel/Model/{GraphOps,LC}.lean tied to lc_equivalence_check.py / linalg.py / graph/state.py / "
-    "local_cliff_equi_check.py by this correspondence run (differential testing; exhaustive for all ordered pairs n<=4, n<=5 in thorough)",
+    "local_cliff_equi_check.py by this correspondence run (differential testing; exhaustive for all ordered pairs n<=4, n<=5 in thorough); "
+    "which of the two modelled versions of is_lc_equivalent (unrepaired: isLcEquivalent; repaired per component, D14: isLcEquivalentR) "
+    "the implementation is compared with is decided by probing the implementation on 2K2",
+    "for the repaired function only: completeness of the pair-sum shortcut on CONNECTED graphs (Van den Nest-Dehaene-De Moor, PRA 70, 034302) is a "
+    "stated hypothesis of decides_lc_equivalence_repaired_partial (shortcut_complete_on_connected_statement), not a theorem; it is tested "
+    "(every false no of the implementation is a violation of the direct oracle; handoff/repairs/d14/validate.py: exhaustive for connected n<=6)",
     "np.linalg.inv on the unit-triangular 0/1 matrices that occur is exact (the model inverts over GF(2) and checks the product)",
     "_phase_correction is modelled at specification level (unique set of Z gates fixing the signs); canonical_form itself belongs to C05",
     "tensor-product lifting of the tableau semantics (C07) used to interpret the returned gates",
